@@ -433,7 +433,12 @@ pub fn expr_to_source_with_scope(
         Expr::InputReference(field) => {
             // `#field` is `inputs.field`: a captured inputs record is inlined the same way
             if let Some(inputs) = scope.get("inputs") {
-                format!("{}.{}", serializable_value_to_source(inputs), field)
+                if is_valid_identifier(field) {
+                    format!("{}.{}", serializable_value_to_source(inputs), field)
+                } else {
+                    // `#then` is allowed but `.then` is not: index by the name instead
+                    format!("{}[\"{}\"]", serializable_value_to_source(inputs), field)
+                }
             } else {
                 format!("#{}", field)
             }
